@@ -148,10 +148,10 @@ def main(argv=None):
           f"known_findings={len(known_hits)} wall={wall}s")
     for line in out_lines:
         print(line)
-    if errors:
-        return 3
     if violations:
         return 1
+    if errors:
+        return 3
     if undecided or missing:
         return 2
     return 0
